@@ -53,6 +53,66 @@ PROPS = {
                  'references are pooled per snapshot (any thread may close a held reference), which over-approximates every ownership discipline',
                  'the live and dead snapshot lists (skiplists) are modelled as ascending lists; their own lock-free steps are not yield points'],
     ),
+    'C02': dict(
+        modules=['NitroVerif.Props.C02'],
+        runs=[('mvcc', gens.gen_mvcc, 400, 40000), ('mvcc', gens.gen_mvcc_mm, 100, 10000)],
+        keep_prefix=1,
+        level='proof',
+        level_text='C02_refines_set: for every operation sequence through any writers the outputs of the MVCC model (Put/Delete/lookup results, ItemsCount, snapshot counts and contents) equal those of a reference set; C02_put_iff/del_iff/get_iff. The model performs Put and lookup the way the code does (search under the insert comparator, exists-comparator on the predecessor) with the comparators regenerated from nitro.go; tied by a differential run of random histories on the real Nitro (both comparators, both memory modes)',
+        trusted=['Lean 4 kernel', 'tools/gofacts translation of the comparators, same-epoch test, skeletons of Put2/Delete2/DeleteNode/NewSnapshot',
+                 'differential run of random sequential histories on the real code (default and CompareKV comparators, Go and user-managed memory)',
+                 'a skiplist operation is one atomic step of the model (C13); keys are modelled as Nat under <, standing for any lawful total order'],
+    ),
+    'C01': dict(
+        modules=['NitroVerif.Props.C01'],
+        runs=[('mvcc', gens.gen_mvcc, 300, 30000), ('mvcc', gens.gen_mvcc_iter, 150, 10000)],
+        keep_prefix=1,
+        level='proof',
+        level_text='C01_view_invariant, C01_content_fixed, C01_scan and C01_scan_interleaved (an open snapshot presents exactly the content fixed at its creation, whatever operations, snapshot closes and collections are interleaved with the scan) are proved for every reachable state of the MVCC model; the interleaving with concurrent goroutines inside one iterator step is not part of this model (see DESIGN.md, C01)',
+        trusted=['Lean 4 kernel', 'tools/gofacts translation of skipUnwanted, comparators, gc frontier test and skeletons',
+                 'differential run: after random histories every open snapshot is scanned (item by item, with mutations in between) and compared with the model',
+                 'granularity: one skiplist operation = one atomic step; collection is performed at the Close that enables it'],
+    ),
+    'C09': dict(
+        modules=['NitroVerif.Props.C09'],
+        runs=[('mvcc', gens.gen_mvcc_iter, 400, 40000)],
+        keep_prefix=1,
+        level='proof',
+        level_text='C09_iterator_exact, C09_rate_independent, C09_refresh_independent: Seek/SeekFirst/Next/Refresh of the model iterator equal the positions in the snapshot content for every reachable state and every call sequence; refresh rates and explicit refreshes are unobservable. The skip and refresh conditions and the operation order inside Next/Refresh/Seek are regenerated from iterator.go',
+        trusted=['Lean 4 kernel', 'tools/gofacts translation of skipUnwanted, the refresh condition and the skeletons of Iterator.Next/Refresh/Seek/SeekFirst',
+                 'differential run of iterator-heavy histories (seek keys present/absent/outside, refresh rates 0..5, explicit Refresh, mutation under the iterator)'],
+    ),
+    'C10': dict(
+        modules=['NitroVerif.Props.C10'],
+        runs=[('mvcc', gens.gen_mvcc_visit, 300, 20000)],
+        keep_prefix=1,
+        level='proof',
+        level_text='C10_visitor_partition: for every snapshot with references, EVERY pivot list, every shard count, the concatenation over shards equals the content, each shard ascends and lies below the next, a failing callback yields an error; pivot filter and end-of-shard comparator/test regenerated from nitro.go. Termination of the dispatcher is by the channel capacity argument recorded in DESIGN.md (D19 fix)',
+        trusted=['Lean 4 kernel', 'tools/gofacts translation of the Visitor pivot filter and end test (comparator kind and comparison)',
+                 'differential run: Visitor with 1..200 shards, concurrency 1..8, failing callbacks, latest and older snapshots',
+                 'GetRangeSplitItems is not modelled: the theorem holds for every list of pivot items'],
+    ),
+    'C06': dict(
+        modules=['NitroVerif.Props.C06', 'NitroVerif.Props.C06Handoff'],
+        runs=[('mvcc', gens.gen_mvcc, 300, 30000), ('mvcc', gens.gen_mvcc_mm, 100, 10000)],
+        iruns=[('refcount', gens.gen_refcount, 100, 4000)],
+        keep_prefix=1,
+        level='proof',
+        level_text='C06_safety_seq, C06_stays_present and C06_exact_at_quiescence_seq (in-order characterisation: after collection the store is the alive versions plus those with dead > lastGCSn, and lastGCSn+1 is the oldest live snapshot) on the MVCC model; C06_handoff_quiescent (no closing order or interleaving of Close/GC leaves a collectable snapshot behind at quiescence) on the small-step collector model. The differential run compares node count, statistics, lastGCSn after gcwait',
+        trusted=['Lean 4 kernel', 'tools/gofacts translation of the frontier test, same-epoch test, skeletons of Close/GC/collectDead/DeleteNode',
+                 'differential run with gcwait (level-0 walk and statistics against the model store) and steered Close/GC schedules',
+                 'reading of the statement: collection is in snapshot order by design, an older open snapshot pins later garbage (recorded by-design finding D18)'],
+    ),
+    'C05': dict(
+        modules=['NitroVerif.Props.C05'],
+        runs=[('mvcc', gens.gen_backup, 120, 6000)],
+        keep_prefix=1,
+        level='proof',
+        level_text='C05_roundtrip (any partition of the content into shard files), C05_roundtrip_delta_general and C05_delta_any_interleaving are proved on the backup model over an abstract file system (framing from C19, assembly in file order); that the Visitor produces a partition is C10, that the assembled list is well formed is C18. Differential: random histories, store of any open snapshot with mutation and collection during the backup (delta on/off), restore into a fresh instance, scan, continue the history',
+        trusted=['Lean 4 kernel', 'tools/gofacts translation of the checksum tests, delta visibility test, skeletons of StoreToDisk/LoadFromDisk',
+                 'differential run of store/load round trips on the real code, including churn during the backup through the item callback',
+                 'encoding/json, bufio, os are parameters of the model; crc32 is generic in the theorems'],
+    ),
 }
 
 
